@@ -22,11 +22,18 @@ def main():
     ap.add_argument('--upto', default=None, help='only templates whose name sorts <= this prefix')
     ap.add_argument('--rlimit', default=None)
     ap.add_argument('-v', action='store_true')
+    ap.add_argument('--lemmas', action='store_true', help='verify only template text (lemmas); all function bodies assumed')
+    ap.add_argument('--ids', default=None, help='comma separated card ids whose bodies are verified (others assumed)')
     a = ap.parse_args()
     tpls = sorted(glob.glob(os.path.join(ROOT, 'contracts', '*.vrs')))
     if a.upto:
         tpls = [t for t in tpls if os.path.basename(t)[:len(a.upto)] <= a.upto]
-    text, meta, info = gen.generate(a.repo, tpls, twin=a.twin)
+    only = set() if a.lemmas else (set(a.ids.split(',')) if a.ids else None)
+    text, meta, info = gen.generate(a.repo, tpls, twin=a.twin, only=only)
+    if only:
+        known = {f['id'] for f in info['functions']}
+        for x in only - known:
+            print('WARNING unknown card id', x)
     text += '\nfn main() {}\n'
     os.makedirs(os.path.join(ROOT, 'build'), exist_ok=True)
     out = os.path.join(ROOT, 'build', 'dev.rs')
